@@ -33,9 +33,16 @@ def audit(Q, option_of, rep, activity, tol=1e-9, exact=False):
     inds = list(Q.nodes[-1].all_individuals)
     for nd in Q.transitive_nodes:
         inds.extend(O.customers(nd))
+    # which mechanism cut a service short: schedule / slot interruptions are logged by the observing node as ("interrupt", t, node, ind, ...)
+    # and priority pre-emptions as ("preempt", t, node, victim, ...); several may fall on one instant, in log order
+    mechs = defaultdict(list)
+    for e in getattr(Q, "obslog", ()):
+        if e[0] in ("interrupt", "preempt"):
+            mechs[(e[3].id_number, e[2], e[1])].append(e[0] == "interrupt")
     for ind in inds:
         R = ind.data_records
         ptr = defaultdict(int)
+        lost = set()
         i = 0
         while i < len(R):
             r = R[i]
@@ -51,8 +58,30 @@ def audit(Q, option_of, rep, activity, tol=1e-9, exact=False):
             i = j + 1
             nid = r.node
             opt = option_of(nid)
-            if not opt:
+            if not opt or nid in lost:
                 continue
+            if isinstance(opt, tuple):
+                # node with pre-emptive priorities *and* a pre-emptive schedule: (priority option, schedule option).  A visit whose interruptions
+                # all came from one mechanism follows that mechanism's option; visits interrupted by both are not audited
+                cuts = [x for x in ep if x.record_type == "interrupted service"]
+                seen_at = defaultdict(int)
+                mech = set()
+                for x in cuts:
+                    key = (ind.id_number, nid, x.exit_date)
+                    seq = mechs.get(key, [])
+                    mech.add(seq[seen_at[key]] if seen_at[key] < len(seq) else None)
+                    seen_at[key] += 1
+                if opt[0] == opt[1] or not cuts:
+                    opt = opt[0]
+                elif mech == {True}:
+                    opt = opt[1]
+                elif mech == {False}:
+                    opt = opt[0]
+                else:
+                    activity["visits_interrupted_by_both_mechanisms"] = activity.get("visits_interrupted_by_both_mechanisms", 0) + 1
+                    lost.add(nid)      # the number of samples this visit consumed is not determined: later visits of this customer here are not audited
+                    continue
+                activity["episodes_at_doubly_preemptive_nodes"] = activity.get("episodes_at_doubly_preemptive_nodes", 0) + (1 if cuts else 0)
             if len(ep) >= 2 and ep[-1].record_type == "service" and ep[-1].service_start_date == ep[-2].service_start_date \
                     and ep[-2].exit_date > ep[-2].service_start_date and ep[-1].service_end_date <= ep[-2].exit_date:
                 # released while still interrupted (it was blocked at the shift end): the final record restores the original interval
